@@ -714,6 +714,11 @@ def run(ctx):
         spec = dense_spec(ts, rng)
         run_oracle_on(sr, ctx, fnd, spec, targets=[tuple(nw)])
 
+    # ---- array-level model (Model/ReshapeArray.a_reshape) vs the real reshape, on its own random arrays
+    import tie_reshape
+    tie_broken += tie_reshape.tie(ctx, sr)
+    for f in tie_reshape.found[:3]:
+        ctx.violation('reshape: %s (array-level model disagrees too)' % (f.get('error') or f.get('raised')), {'oracle': 'tie_reshape', **f})
     ctx.broken += tie_broken
     if (not ok or tie_broken) and not ctx.violations:
         ctx.violation('proof obligation or tie of C07 no longer checks', {'broken': ctx.broken}, found_input=False)
